@@ -118,6 +118,9 @@ def grid_modules():
             uses = ', '.join([name] * k)
             out.append(('local_var.L%d.k%d' % (L, k), 'rename_locals', 'def f():\n    %s = g()\n    return [%s]\n' % (name, uses)))
             out.append(('argument.L%d.k%d' % (L, k), 'rename_locals', 'def f(%s):\n    return [%s]\n' % (name, uses)))
+            out.append(('argument_compound_body.L%d.k%d' % (L, k), 'rename_locals', 'def f(%s):\n    if g():\n        return [%s]\n' % (name, uses)))
+            out.append(('argument_nested_compound_body.L%d.k%d' % (L, k), 'rename_locals', 'def f(%s):\n    for i in g():\n        if i:\n            return [%s]\n' % (name, uses)))
+            out.append(('argument_in_method_compound.L%d.k%d' % (L, k), 'rename_locals', 'class C:\n    def m(self, %s):\n        while g():\n            return [%s]\n' % (name, uses)))
             out.append(('kwonly_argument.L%d.k%d' % (L, k), 'rename_locals', 'def f(*, %s=1):\n    return [%s]\n' % (name, uses)))
             out.append(('two_arguments.L%d.k%d' % (L, k), 'rename_locals', 'def f(%s, %s2):\n    return [%s], %s2\n' % (name, name, uses, name)))
             out.append(('local_import.L%d.k%d' % (L, k), 'rename_locals', 'def f():\n    import %s\n    return [%s]\n' % (name, uses)))
@@ -134,6 +137,8 @@ def grid_modules():
             lit = repr('s' * L)
             out.append(('hoist_str.L%d.k%d' % (L, k), 'hoist_literals', 'f([%s])\n' % ', '.join([lit] * k)))
             out.append(('hoist_str_in_function.L%d.k%d' % (L, k), 'hoist_literals', 'def h():\n    return [%s]\n' % ', '.join([lit] * k)))
+            out.append(('hoist_str_in_function_compound.L%d.k%d' % (L, k), 'hoist_literals', 'def h():\n    if g():\n        return [%s]\n' % ', '.join([lit] * k)))
+            out.append(('hoist_str_in_method_compound.L%d.k%d' % (L, k), 'hoist_literals', 'class C:\n    def m(self):\n        for i in g():\n            return [%s]\n' % ', '.join([lit] * k)))
             out.append(('hoist_bytes.L%d.k%d' % (L, k), 'hoist_literals', 'f([%s])\n' % ', '.join(['b' + lit] * k)))
     for k in range(1, 9):
         for c in ('None', 'True', 'False'):
